@@ -36,50 +36,83 @@ BagEq(s1, s2) == \A x \in RangeOf(s1) \cup RangeOf(s2) : Count(s1, x) = Count(s2
 MaxOf(S) == CHOOSE x \in S : \A y \in S : y <= x
 MinOfS(S) == CHOOSE x \in S : \A y \in S : x <= y
 
+Cert(o, x)     == CHOOSE c \in RangeOf(o.certs) : c.id = x
+Known(o, ch)   == \A i \in 1..Len(ch) : \E c \in RangeOf(o.certs) : c.id = ch[i]
+Lower(o, ch)   == MaxOf({Cert(o, ch[i]).nb : i \in 1..Len(ch)})
+Upper(o, ch)   == MinOfS({Cert(o, ch[i]).na : i \in 1..Len(ch)})
+ValidAt(o, ch, t) == Lower(o, ch) < t /\ t < Upper(o, ch)
+Class(o, ch)   == IF ValidAt(o, ch, o.t) THEN "current"
+                  ELSE IF Lower(o, ch) < Upper(o, ch) THEN "expired" ELSE "never"
+C0(o)          == Cert(o, o.start)
+Exp(o)         == ~(C0(o).nb < o.t /\ o.t < C0(o).na)
+\* what the statement demands, computed from the walked chains only
+SpecCurrent(o) == SelectSeq(o.walked, LAMBDA ch : ValidAt(o, ch, o.t))
+SpecVAE(o)     == SelectSeq(o.walked, LAMBDA ch : ValidAt(o, ch, C0(o).na - 1))
+SpecParents(o) == {ch[2] : ch \in {x \in RangeOf(IF Exp(o) THEN SpecVAE(o) ELSE SpecCurrent(o)) : Len(x) >= 2}}
+SpecType(o)    == IF o.isroot THEN "root"
+                  ELSE IF C0(o).ca /\ SpecParents(o) # {} THEN "intermediate"
+                  ELSE IF SpecParents(o) # {} THEN "leaf" ELSE "unknown"
+NameMatches(o) == o.name \in RangeOf(C0(o).dns)
+OneLists(o)    == o.onecrl.has /\ (\/ <<C0(o).subj, C0(o).key>> \in RangeOf(o.onecrl.blocked)
+                                   \/ <<C0(o).iss, C0(o).serial>> \in RangeOf(o.onecrl.listed))
+SetHit(o, p)   == o.crlset.has /\ (\/ Cert(o, p).key \in RangeOf(o.crlset.blocked)
+                                   \/ <<Cert(o, p).key, C0(o).serial>> \in RangeOf(o.crlset.listed))
+AnyIssuer(o)   == {ch[2] : ch \in {x \in RangeOf(o.walked) : Len(x) >= 2}}
+MustRev(o)     == OneLists(o) \/ \E p \in SpecParents(o) : SetHit(o, p)
+MayRev(o)      == \/ MustRev(o)
+                  \/ \E p \in AnyIssuer(o) : SetHit(o, p)
+                  \/ (AnyIssuer(o) = {} /\ o.crlset.has /\
+                      (o.crlset.blocked # <<>> \/ \E e \in RangeOf(o.crlset.listed) : e[2] = C0(o).serial))
+WalkedKnown(o) == \A i \in 1..Len(o.walked) : Known(o, o.walked[i]) /\ Len(o.walked[i]) > 0
+
 VerifyReasons(o) ==
-  LET C        == RangeOf(o.certs)
-      cert(x)  == CHOOSE c \in C : c.id = x
-      c0       == cert(o.start)
-      known(ch)== \A i \in 1..Len(ch) : \E c \in C : c.id = ch[i]
-      lower(ch)== MaxOf({cert(ch[i]).nb : i \in 1..Len(ch)})
-      upper(ch)== MinOfS({cert(ch[i]).na : i \in 1..Len(ch)})
-      validAt(ch, t) == lower(ch) < t /\ t < upper(ch)
-      class(ch)== IF validAt(ch, o.t) THEN "current" ELSE IF lower(ch) < upper(ch) THEN "expired" ELSE "never"
-      r        == o.res
-      all      == r.current \o r.expired \o r.never
-      allknown == \A i \in 1..Len(o.walked) : known(o.walked[i]) /\ Len(o.walked[i]) > 0
-      exp      == ~(c0.nb < o.t /\ o.t < c0.na)
-      rel      == IF exp THEN r.vae ELSE r.current
-      wantPar  == {ch[2] : ch \in {x \in RangeOf(rel) : Len(x) >= 2}}
-      pars     == RangeOf(r.parents)
-      wantType == IF o.isroot THEN "root"
-                  ELSE IF c0.ca /\ wantPar # {} THEN "intermediate"
-                  ELSE IF wantPar # {} THEN "leaf" ELSE "unknown"
-      \* revocation sets
-      oneLists == o.onecrl.has /\ (\/ <<c0.subj, c0.key>> \in RangeOf(o.onecrl.blocked)
-                                   \/ <<c0.iss, c0.serial>> \in RangeOf(o.onecrl.listed))
-      hit(p)   == o.crlset.has /\ (\/ cert(p).key \in RangeOf(o.crlset.blocked)
-                                   \/ <<cert(p).key, c0.serial>> \in RangeOf(o.crlset.listed))
-      anyIss   == {ch[2] : ch \in {x \in RangeOf(o.walked) : Len(x) >= 2}}
-      must     == oneLists \/ \E p \in wantPar : hit(p)
-      may      == must \/ (\E p \in anyIss : hit(p))
-                       \/ (anyIss = {} /\ o.crlset.has /\
-                           (o.crlset.blocked # <<>> \/ \E e \in RangeOf(o.crlset.listed) : e[2] = c0.serial))
+  LET r   == o.res
+      all == r.current \o r.expired \o r.never
   IN
   IF o.panic # "" THEN {"panic"}
-  ELSE IF ~allknown THEN {"walked-unknown-certificate"}
+  ELSE IF ~WalkedKnown(o) THEN {"walked-unknown-certificate"}
   ELSE
   {w \in {"partition", "class", "vae", "parents", "expired-flag", "type", "name-error", "name",
           "in-revocation-set"} :
      CASE w = "partition"    -> ~BagEq(all, o.walked)
-       [] w = "class"        -> \/ \E i \in 1..Len(r.current) : known(r.current[i]) /\ class(r.current[i]) # "current"
-                                \/ \E i \in 1..Len(r.expired) : known(r.expired[i]) /\ class(r.expired[i]) # "expired"
-                                \/ \E i \in 1..Len(r.never)   : known(r.never[i]) /\ class(r.never[i]) # "never"
-       [] w = "vae"          -> ~BagEq(r.vae, SelectSeq(o.walked, LAMBDA ch : validAt(ch, c0.na - 1)))
-       [] w = "parents"      -> ~(NoDup(r.parents) /\ pars = wantPar)
-       [] w = "expired-flag" -> r.isexpired # exp
-       [] w = "type"         -> r.type # wantType
-       [] w = "name-error"   -> r.nameerr # (o.name # "" /\ o.name \notin RangeOf(c0.dns))
+       [] w = "class"        -> \/ \E i \in 1..Len(r.current) : Known(o, r.current[i]) /\ Class(o, r.current[i]) # "current"
+                                \/ \E i \in 1..Len(r.expired) : Known(o, r.expired[i]) /\ Class(o, r.expired[i]) # "expired"
+                                \/ \E i \in 1..Len(r.never)   : Known(o, r.never[i]) /\ Class(o, r.never[i]) # "never"
+       [] w = "vae"          -> ~BagEq(r.vae, SpecVAE(o))
+       [] w = "parents"      -> ~(NoDup(r.parents) /\ RangeOf(r.parents) = SpecParents(o))
+       [] w = "expired-flag" -> r.isexpired # Exp(o)
+       [] w = "type"         -> r.type # SpecType(o)
+       [] w = "name-error"   -> r.nameerr # (o.name # "" /\ ~NameMatches(o))
        [] w = "name"         -> r.name # o.name
-       [] w = "in-revocation-set" -> ~((must => r.inrev) /\ (r.inrev => may))}
+       [] w = "in-revocation-set" -> ~((MustRev(o) => r.inrev) /\ (r.inrev => MayRev(o)))}
+
+(* Coverage tags of an observation, computed from the INPUT side (walked chains, times, names,
+   revocation sets) - never from the result under test.  The driver requires every tag to occur
+   in a run (otherwise the run is vacuous for that clause). *)
+VerifyCover(o) ==
+  IF o.panic # "" \/ ~WalkedKnown(o) THEN {} ELSE
+  {w \in {"chain-current", "chain-expired", "chain-never", "vae", "no-vae-but-chains", "parents",
+          "two-parents", "cert-expired", "cert-valid", "type-root", "type-intermediate", "type-leaf",
+          "type-unknown", "name-none", "name-match", "name-mismatch", "rev-must", "rev-must-not",
+          "rev-open", "expired-with-parents"} :
+     CASE w = "chain-current" -> \E ch \in RangeOf(o.walked) : Class(o, ch) = "current"
+       [] w = "chain-expired" -> \E ch \in RangeOf(o.walked) : Class(o, ch) = "expired"
+       [] w = "chain-never"   -> \E ch \in RangeOf(o.walked) : Class(o, ch) = "never"
+       [] w = "vae"           -> SpecVAE(o) # <<>>
+       [] w = "no-vae-but-chains" -> SpecVAE(o) = <<>> /\ o.walked # <<>>
+       [] w = "parents"       -> SpecParents(o) # {}
+       [] w = "two-parents"   -> Cardinality(SpecParents(o)) >= 2
+       [] w = "cert-expired"  -> Exp(o)
+       [] w = "cert-valid"    -> ~Exp(o)
+       [] w = "type-root"     -> SpecType(o) = "root"
+       [] w = "type-intermediate" -> SpecType(o) = "intermediate"
+       [] w = "type-leaf"     -> SpecType(o) = "leaf"
+       [] w = "type-unknown"  -> SpecType(o) = "unknown"
+       [] w = "name-none"     -> o.name = ""
+       [] w = "name-match"    -> o.name # "" /\ NameMatches(o)
+       [] w = "name-mismatch" -> o.name # "" /\ ~NameMatches(o)
+       [] w = "rev-must"      -> MustRev(o)
+       [] w = "rev-must-not"  -> (o.onecrl.has \/ o.crlset.has) /\ ~MayRev(o)
+       [] w = "rev-open"      -> MayRev(o) /\ ~MustRev(o)
+       [] w = "expired-with-parents" -> Exp(o) /\ SpecParents(o) # {}}
 =============================================================================
